@@ -240,17 +240,32 @@ func (x *exec) configsFor(p reentryProg) []reentryLimits {
 	return []reentryLimits{cfgStd}
 }
 
+// heavy programs create tens of thousands of nested coroutines (goroutines)
+// before the quota stops them; the quick tier's sanitizer slice leaves them out.
+var heavyProgs = map[string]bool{"coroutine-wrap-nest": true, "coroutine-resume-nest": true, "coroutine-wrap-nest-bounded": true, "coroutine-close-nest": true}
+
 func runReentry(x *exec) {
 	c := x.c
-	x.caseWall = 45 * time.Second
+	x.caseWall = 150 * time.Second
 	if c.Tier == vp.Thorough {
-		x.caseWall = 400 * time.Second
+		x.caseWall = 600 * time.Second
 	}
 	k := 0
 	for _, p := range reentryProgs() {
 		depths := []int{0}
 		if strings.Contains(p.src, "DEPTH") {
 			depths = reentryDepths
+		}
+		if c.Tier == vp.Quick {
+			if len(depths) > 1 {
+				depths = []int{100, 100000}
+			}
+			if x.variant != "plain" {
+				if heavyProgs[p.name] {
+					continue
+				}
+				depths = depths[:1]
+			}
 		}
 		for _, d := range depths {
 			for _, cfg := range x.configsFor(p) {
